@@ -128,10 +128,13 @@ class Check:
     def withdraw_findings_of_broken_rules(self):
         """a rule that reported ANALYSIS-ERROR (it could not find part of what it reasons about) does not also report VIOLATIONs: what it
         says about the rest of the construct is not reliable.  Positive findings (forbidden construct present) stand."""
-        broken = {r for r, _ in self.errors}
+        # only errors the rule raised about ITSELF count ("expected construct not found", floors); withdrawals of single findings
+        # (core/unconfirmed.py: "cannot decide ...") say nothing about the rule's other instances
+        broken = {r for r, why in self.errors if not str(why).startswith(("cannot decide", "not reported as a violation"))}
+        kmap = {(k["rule"], canon_key(k["key"])) for k in load_known() if k.get("property") == self.prop and k.get("status") == "known"}
         n = 0
         for ident, f in list(self.findings.items()):
-            if ident in self.positive:
+            if ident in self.positive or ident in kmap:
                 continue
             if any(f.rule == b or f.rule.startswith(b + ".") or b.startswith(f.rule + ".") for b in broken):
                 del self.findings[ident]
